@@ -2,8 +2,14 @@
   C04 — serde round trip.  The typed theorem `C04_value : HasTy t d → de t (ser t d) = ok d` for the whole
   type universe is in LexprModel/Proofs/SerdeRT.lean (when present).  Proved here: the primitive cases
   at every width, and the shape-ambiguous option nestings the quantifier lists.
+  Fully proved (LexprModel/Proofs/SerdeRT.lean, imported here): `C04_value` — for every well-formed type
+  (distinct field and variant names) and every datum of that type, `de t (ser t d) = ok d`: all integer
+  widths, f32 (fixed points of the f32 rounding, `C04_f32_idem`), f64 including NaN bit patterns, options
+  (also `Option<Option<T>>`, `Option<()>`), sequences, sets, tuples, maps, structs, unit / newtype /
+  tuple structs, enums with the four variant kinds, nested arbitrarily; witnesses show each hypothesis
+  is needed.  The text path composes this with C01 (floats to the accuracy of C05).
 -/
-import LexprModel.Serde
+import LexprModel.Proofs.SerdeRT
 namespace Lexpr
 namespace Serde
 
